@@ -17,6 +17,30 @@ CHECKS = {
  "C13": dict(tech="runtime monitoring: every string and every Vector() output cross-offered to all four parsers; at-most-one-acceptor monitor",
    text="The whole hostile string stream incl. header variants x bodies and cross-version bodies goes to all four parsers; two acceptors, or a Vector() accepted by a foreign parser or rejected by its own, is a violation.",
    note="no model needed (cross comparison)", ref="3 C13"),
+ "C02": dict(tech="runtime monitoring: round-trip monitor (Vector -> ParseVector -> == and all Gets) over objects built through five public-API history styles",
+   text="Objects are reached only through the public API (parse, Set histories incl. failing Sets, clones, zero values, accepted hostile mutants); each is serialised, parsed back and compared with == and on every Get. v2.0: complete enumeration of all 139,968,000 objects in the thorough tier; v3/v4 sampled with an all-pairs floor.",
+   note="self-comparison, no model; v3/v4 spaces are sampled", ref="3 C02"),
+ "C03": dict(tech=ORACLE + " (exact rational arithmetic, math/big); complete effective-class sweep",
+   text="All 16,588,800 effective classes of v3.0 and of v3.1 are realised on real objects and BaseScore/TemporalScore/EnvironmentalScore/Impact/Exploitability compared with an exact-rational evaluation of the specification equations; Modified-metric cover and random overlays lift it to the raw space.",
+   note="trusts the transcription of weights/equations in harness/spec/score_v3.go and math/big", ref="3 C03"),
+ "C04": dict(tech=ORACLE + " (exact integer MacroVector model, independent 270-cell table); complete effective-class sweep",
+   text="All 15,116,544 effective classes (270/270 MacroVectors) are realised on real objects through base and/or Modified metrics and Score() must equal the exact half-up value of the section 8 algorithm with no tolerance; random raw assignments and supplemental-metric siblings added.",
+   note="trusts the transcription of Tables 24-30 / section 8.2 in harness/spec/score_v4.go and the independently sourced lookup data", ref="3 C04"),
+ "C05": dict(tech=ORACLE + " (exact rational arithmetic with either-neighbour ties); complete enumeration in thorough",
+   text="Every one of the 139,968,000 v2.0 assignments (thorough; quick: all base x temporal + a 1/8 stride of the environmental grid over all impact/exploitability/requirement classes) is built through the API and its three scores must lie in the oracle's conforming set, sub-scores within 1e-9.",
+   note="trusts the transcription of the v2 guide equations in harness/spec/score_v2.go", ref="3 C05"),
+ "C07": dict(tech="runtime monitoring: shadow-map monitor on every Set of complete (m,v,m',v') quadruple matrices and random hostile Set histories; == monitor",
+   text="Complete quadruple matrix on three backgrounds (all-max codes expose masks one bit too wide), failing Sets must leave the object bit-identical, random histories of up to 200 Sets are checked against a shadow map after every step, and equal maps must give == objects whatever the history.",
+   note="shadow map = the property's own statement; histories sampled", ref="3 C07"),
+ "C09": dict(tech="runtime monitoring: complete hostile abbreviation x value matrix against the vocabulary tables; well-formedness sweep after hostile histories",
+   text="Complete cross product of ~500 hostile abbreviations x ~300 hostile values per version on zero and random objects (accept iff in the vocabulary), then every hostile history is followed by a sweep: all Gets legal, Vector() grammatical and consistent, every scoring method returns.",
+   note="trusts the vocabulary tables in harness/spec/vocab.go", ref="3 C09"),
+ "C11": dict(tech="runtime monitoring: arithmetic predicate monitor (finite, exact one-decimal, range, Rating accepts) on every scoring result of complete class sweeps",
+   text="Every result of every rounded scoring method over the complete class sweeps of v3.0/v3.1/v4.0 (v2.0 complete in thorough) and random raw objects must be finite, equal float64(k)/10, in range and accepted by Rating.",
+   note="pure predicate, no model", ref="3 C11"),
+ "C16": dict(tech=ORACLE + " (nomenclature from the assignment); complete sole-metric / all-but-one / pair matrices + random histories",
+   text="Nomenclature() compared with the group-membership oracle on every optional metric as the sole defined one (x value x background x history style), all-but-one, all pairs and random assignments built through hostile histories.",
+   note="trusts Table 23 group membership in harness/spec/vocab.go", ref="3 C16"),
 }
 NOT_YET = {}
 props = [json.loads(l)["id"] for l in open(os.path.join(ROOT, "properties.jsonl"))]
